@@ -178,3 +178,47 @@ def ancestors_handlers(node: ast.AST) -> list[ast.ExceptHandler]:
             break
         cur = getattr(cur, "_parent", None)
     return out
+
+
+def linear(e: ast.expr) -> dict[str, int] | None:
+    """Normalise an integer expression built from names, calls (atoms), integer constants,
+    ``+``, ``-`` and unary minus into {atom: coefficient, "": constant}; None if not linear."""
+    if isinstance(e, ast.Constant) and isinstance(e.value, int) and not isinstance(e.value, bool):
+        return {"": e.value}
+    if isinstance(e, (ast.Name, ast.Call, ast.Attribute, ast.Subscript)):
+        return {ast.unparse(e): 1}
+    if isinstance(e, ast.UnaryOp) and isinstance(e.op, ast.USub):
+        r = linear(e.operand)
+        return None if r is None else {k: -v for k, v in r.items()}
+    if isinstance(e, ast.BinOp) and isinstance(e.op, (ast.Add, ast.Sub)):
+        a, b = linear(e.left), linear(e.right)
+        if a is None or b is None:
+            return None
+        out = dict(a)
+        sign = 1 if isinstance(e.op, ast.Add) else -1
+        for k, v in b.items():
+            out[k] = out.get(k, 0) + sign * v
+        return {k: v for k, v in out.items() if v != 0 or k == ""}
+    return None
+
+
+def linear_cmp(test: ast.expr) -> tuple[dict[str, int], str] | None:
+    """``a OP b`` with linear sides -> (a - b normalised, OP) with OP in <,<=,>,>=,==,!=."""
+    if not (isinstance(test, ast.Compare) and len(test.ops) == 1):
+        return None
+    a, b = linear(test.left), linear(test.comparators[0])
+    if a is None or b is None:
+        return None
+    d = dict(a)
+    for k, v in b.items():
+        d[k] = d.get(k, 0) - v
+    d = {k: v for k, v in d.items() if v != 0}
+    op = {ast.Lt: "<", ast.LtE: "<=", ast.Gt: ">", ast.GtE: ">=", ast.Eq: "==", ast.NotEq: "!="}.get(type(test.ops[0]))
+    if op is None:
+        return None
+    # canonical orientation: first atom (sorted) has positive coefficient
+    keys = sorted(k for k in d if k)
+    if keys and d[keys[0]] < 0:
+        d = {k: -v for k, v in d.items()}
+        op = {"<": ">", "<=": ">=", ">": "<", ">=": "<=", "==": "==", "!=": "!="}[op]
+    return d, op
